@@ -81,6 +81,11 @@ type Test struct {
 	Fields   []string `json:"fields,omitempty"`    // fields the sweep queries (default: those set in ops)
 	NoObs    bool     `json:"noobs,omitempty"`     // no automatic final sweep
 	VClock   bool     `json:"vclock,omitempty"`    // drive the background flusher with the virtual clock
+	Threads  [][]Op   `json:"threads,omitempty"`   // concurrent part: one list of calls per goroutine
+	Reopen   bool     `json:"reopen,omitempty"`    // close and reopen before the concurrent part (race on the first access)
+	Perturb  bool     `json:"perturb,omitempty"`   // schedule perturbation at file-system call sites
+	Yield    bool     `json:"yield,omitempty"`     // yield between the calls of a goroutine
+	NoRecord bool     `json:"norecord,omitempty"`  // race-detector runs: no recording, no synchronisation of the driver's own
 	CrashAll bool     `json:"crash_all,omitempty"` // enumerate the crash points of every mutating call
 }
 
@@ -191,7 +196,10 @@ func (r *Runner) emit(e ev) {
 	}
 }
 
-func (r *Runner) schema() sod.Schema {
+func (r *Runner) schema() sod.Schema { return schemaFor(r.cfg) }
+
+func schemaFor(cfg Cfg) sod.Schema {
+	r := struct{ cfg Cfg }{cfg}
 	s := sod.DefaultSchema
 	s.Extension = r.cfg.Ext
 	if s.Extension == "" {
@@ -381,6 +389,13 @@ func RunTest(t *Test, out *json.Encoder, workdir string) {
 		return
 	}
 	r.emit(r.header(cc))
+	if len(t.Threads) > 0 {
+		if !r.guard("concurrent", func() { r.runConcurrent() }) {
+			r.guard("close", func() { r.db.Close() })
+		}
+		r.emit(ev{"ev": "end"})
+		return
+	}
 	lastObs := false
 	for i := range t.Ops {
 		op := &t.Ops[i]
